@@ -10,3 +10,4 @@ import AtsProofs.C14
 import AtsProofs.C16b
 import AtsProofs.Claims.C08
 import AtsProofs.Witness
+import AtsProofs.Migrate
